@@ -656,6 +656,25 @@ def printer_programs():
                                Loop(Block([Expr(Block([], I(3))), Break()]))], V("i")), "int"),
         "main": Fn([], Block([Print(Call("f", I(9)), Call("f", I(1)), V("cnt"), Call("g", I(1)), Call("h", I(4)), Call("k", I(2))),
                               Expr(If(B(True), Block([], I(1)), Block([], I(2))))]))}, globs=[("cnt", I(0))])
+    # every kind of expression as the base of a member call / an index / a field access, as an operand of a prefix
+    # operator and as a bound of a range: what binds weaker than the postfix form keeps its parentheses
+    a, b, f, t, l = V("a"), V("b"), V("f"), V("t"), V("l")
+    int_bases = [I(7), Un("-", a), Bin("+", a, b), Bin("**", a, b), As(f, "int"), If(t, Block([], a), Block([], b)), Block([Let("q", a)], V("q")),
+                 Match(a, [([I(7)], I(1))], I(0)), Try(Block([], a), "e", Block([], I(0))), MCall(l, "len"), Idx(l, I(0)), Call("id", a)]
+    range_bases = [Range(I(0), a), Range(I(0), I(3), True), Range(Un("-", a), Bin("+", a, I(1))), Range(MCall(l, "len"), Idx(l, I(1)))]
+    list_bases = [List(a, b), If(t, Block([], l), Block([], List(b))), Block([], l), Match(a, [([I(7)], l)], List(I(0)))]
+    add("postfix_bases", {"id": Fn(["n"], Block([], V("n")), "int", ["int"]), "main": Fn([], Block(
+        [Let("a", I(7)), Let("b", I(2)), Let("f", F(5, 1)), Let("t", B(True)), Let("l", List(I(4), I(5)))] +
+        [Print(*[MCall(x, "to_string") for x in int_bases])] +
+        [Print(*[MCall(x, "diff") for x in range_bases]), Print(*[MCall(x, "rev") for x in range_bases]), Print(*[Mem(x, "start") for x in range_bases]),
+         Print(*[MCall(MCall(x, "rev"), "to_string") for x in range_bases])] +
+        [Print(*[Idx(x, I(0)) for x in list_bases]), Print(*[MCall(x, "len") for x in list_bases])] +
+        [Print(MCall(F(15, 1), "round"), MCall(Un("-", f), "round"), MCall(As(a, "float"), "to_string"), MCall(Bin("*", f, f), "trunc")),
+         Print(MCall(S("xy"), "len"), MCall(Bin("+", S("x"), S("yz")), "len"), MCall(Un("?", a), "unwrap"), MCall(Un("?", Bin("+", a, b)), "unwrap_or", I(0))),
+         Print(Un("-", MCall(l, "len")), Un("-", Idx(l, I(0))), Un("!", MCall(l, "contains", I(4))), Un("-", As(f, "int")), As(Un("-", f), "int")),
+         Print(Bin("==", Range(I(0), a), Range(I(0), I(7))), Bin("==", MCall(Range(I(0), a), "rev"), Range(a, I(0)))),
+         For("i", Range(Un("-", I(1)), Bin("-", a, I(5))), Block([Print(V("i"))])),
+         Let("r", Range(Bin("*", b, I(2)), Bin("+", Bin("*", b, I(2)), I(1)), True)), Print(V("r"), MCall(V("r"), "diff"))]))})
     # what stands in an else block: only an if (an else-if chain), statements and then an if, other block-like values
     add("else_blocks", {
         "grade": Fn(["n"], Block([], If(Bin(">", V("n"), I(10)), Block([], S("big")),
